@@ -10,6 +10,7 @@
 -/
 import BklProofs.Lemmas.Files
 import BklProofs.Lemmas.FilesRename
+import BklProofs.Lemmas.C03Chain
 namespace Bkl
 
 /-! ## the filename rule -/
@@ -540,5 +541,707 @@ theorem C03_self_parent_rejected :
     mergeFileLayers selfFS ⟨[], []⟩ PState.empty ["a.yaml"] = .error .circularRef := by
   refine ⟨selfFS_cycle, ?_⟩
   rw [mergeFileLayers_eq, selfFS_cycle]
+
+/-! ## chains of arbitrary depth
+
+  Notation (definitions in `BklProofs/Lemmas/C03Chain.lean`): a chain is a base-first list of
+  `CLayer`s `⟨name, ext, docs⟩` (the layer's own name component `aₖ`, the extension of the one
+  file that provides the layer, that file's documents); `layerName ns = ".".intercalate ns`;
+  `prefixPath d pre (P ++ [x]) = d/<pre.P-names.x.name>.<x.ext>` (`prefixPath_snoc`);
+  `PlainName c` = non-empty and without dots; `chainFiles d pre c R` is the explicit list of
+  loaded files for the top-first chain `R` (child id `c`), `plainDocs` its documents. -/
+
+/-- **Partial** (`n ≤ loadFuel = 64`, see `C03_chain_order_n_false`): generalises
+    `C03_chain_order` to a chain `a₁, a₁.a₂, …, a₁.….aₙ` (`L = P ++ [x]`, so `n ≥ 1`) of plain
+    names in a link-free directory `d`, each layer provided by exactly one file (any supported
+    extension, any number of documents, none with `$parent`).  Loading the top file returns
+    exactly the `n` files **base first**: their paths are the files of `a₁`, `a₁.a₂`, … in this
+    order, their documents are the layers' documents, the top file's id is its path, each lower
+    file's id is the next upper file's id extended by `|<own path>`, the base documents have no
+    parents and the documents of every other file point at exactly the documents of the file
+    below; `mergeFileLayers` merges all documents in this order. -/
+theorem C03_chain_order_n_partial (fs : FS) (d cwd : Comps) (P : List CLayer) (x : CLayer)
+    (hd : PlainDir fs d) (hn : (P ++ [x]).length ≤ loadFuel)
+    (hpl : ∀ y ∈ P ++ [x], PlainName y.name)
+    (hok : ∀ P' y, P' ++ [y] <+: P ++ [x] →
+      LayerFile fs d (layerName ([] ++ (P' ++ [y]).map (·.name))) y.ext (.ok y.docs) ∧
+        ∀ v ∈ y.docs, parentDirective v = .ok .absent) :
+    let L := P ++ [x]
+    ∃ files ids,
+      loadFileAndParents fs ⟨[], cwd⟩ loadFuel (prefixPath d [] L) none [] [] = .ok (files, ids) ∧
+      files = chainFiles d [] none L.reverse ∧
+      files.map (·.path) = (List.range L.length).map (fun k => prefixPath d [] (L.take (k + 1))) ∧
+      files.map (fun f => f.docs.map (·.data)) = L.map (·.docs) ∧
+      files.getLast?.map (·.id) = some (pathStr (prefixPath d [] L)) ∧
+      (∀ k f g, files[k]? = some f → files[k + 1]? = some g →
+        f.id = g.id ++ "|" ++ pathStr f.path ∧ ∀ dd ∈ g.docs, dd.parents = f.docs.map (·.id)) ∧
+      (∀ f, files.head? = some f → ∀ dd ∈ f.docs, dd.parents = []) ∧
+      (∀ st, mergeFileLayers fs ⟨[], cwd⟩ st (prefixPath d [] L) =
+        runMerges st (files.flatMap (·.docs))) := by
+  intro L
+  have hload := load_chain (cwd := cwd) hd P x hn hpl hok
+  refine ⟨_, _, hload, rfl, chainFiles_paths_rev d [] L none, chainFiles_data_rev d [] L none,
+    ?_, chainFiles_link d [] L.reverse none, chainFiles_head_parents d [] L.reverse none, ?_⟩
+  · have hr : L.reverse = x :: P.reverse := by simp [L]
+    rw [hr, chainFiles_getLast]
+    simp only [Option.map_some, fileIdOf, prefixPath, hr]
+  · intro st
+    rw [mergeFileLayers_eq, hload]
+    exact mergeFiles_eq st _
+
+/-- The unrestricted statement ("for every `n`") is FALSE for the model: `loadFileAndParents`
+    carries the recursion fuel `loadFuel = 64` (Go's recursion is unbounded) and reports
+    `circularRef` when it runs out.  `deepFS [] 65` holds `/w/a.yaml`, `/w/a.a.yaml`, … up to 65
+    components; all hypotheses of `C03_chain_order_n_partial` except `n ≤ loadFuel` hold and
+    loading the top file fails. -/
+theorem C03_chain_order_n_false :
+    ∃ (fs : FS) (d cwd : Comps) (P : List CLayer) (x : CLayer),
+      PlainDir fs d ∧ (P ++ [x]).length = loadFuel + 1 ∧ (∀ y ∈ P ++ [x], PlainName y.name) ∧
+      ChainFilesOK fs d [] (P ++ [x]) ∧
+      loadFileAndParents fs ⟨[], cwd⟩ loadFuel (prefixPath d [] (P ++ [x])) none [] [] =
+        .error .circularRef := by
+  have hrep : List.replicate 64 deepLayer ++ [deepLayer] = List.replicate 65 deepLayer :=
+    (List.replicate_succ' (n := 64) (a := deepLayer)).symm
+  have hpl : ∀ y ∈ List.replicate 64 deepLayer ++ [deepLayer], PlainName y.name := by
+    intro y hy
+    rw [hrep] at hy
+    rw [(List.mem_replicate.1 hy).2]
+    exact deepLayer_plain
+  have hok : ChainFilesOK (deepFS [] 65) ["w"] [] (List.replicate 64 deepLayer ++ [deepLayer]) := by
+    rw [hrep]; exact deepFS_chainOK [] 65
+  refine ⟨deepFS [] 65, ["w"], [], List.replicate 64 deepLayer, deepLayer, deepFS_plain [] 65,
+    by simp [loadFuel], hpl, hok, ?_⟩
+  exact load_chain_nofuel (deepFS_plain [] 65) _ _ (by simp [loadFuel]) (fun _ h => nomatch h) hpl hok
+
+/-- …and this is exactly the failing class: with more than `loadFuel` layers (and otherwise
+    the hypotheses of `C03_chain_order_n_partial`) the model always answers `circularRef`. -/
+theorem C03_chain_order_n_fuel (fs : FS) (d cwd : Comps) (P : List CLayer) (x : CLayer)
+    (hd : PlainDir fs d) (hn : loadFuel < (P ++ [x]).length)
+    (hpl : ∀ y ∈ P ++ [x], PlainName y.name)
+    (hok : ∀ P' y, P' ++ [y] <+: P ++ [x] →
+      LayerFile fs d (layerName ([] ++ (P' ++ [y]).map (·.name))) y.ext (.ok y.docs) ∧
+        ∀ v ∈ y.docs, parentDirective v = .ok .absent) :
+    loadFileAndParents fs ⟨[], cwd⟩ loadFuel (prefixPath d [] (P ++ [x])) none [] [] =
+      .error .circularRef :=
+  load_chain_nofuel hd P x hn (fun _ h => nomatch h) hpl hok
+/-- non-vacuity: `/w/a.yaml`, `/w/a.b.json`, `/w/a.b.c.toml` as the chain `exChain`; the loaded
+    paths come out base first -/
+example :
+    exChain = [⟨"a", "yaml", [.map [("x", .int 1)]]⟩, ⟨"b", "json", [.map [("y", .int 2)]]⟩] ++
+      [⟨"c", "toml", [.map [("z", .int 3)]]⟩] ∧
+    PlainDir chainFS ["w"] ∧ exChain.length ≤ loadFuel ∧ (∀ y ∈ exChain, PlainName y.name) ∧
+    ChainFilesOK chainFS ["w"] [] exChain ∧
+    (List.range exChain.length).map (fun k => prefixPath ["w"] [] (exChain.take (k + 1))) =
+      [["w", "a.yaml"], ["w", "a.b.json"], ["w", "a.b.c.toml"]] :=
+  ⟨rfl, chainFS_plain, by decide, exChain_plain, exChain_ok, by decide⟩
+
+/-- non-vacuity beyond depth 3: a chain of ten layers `a`, `a.a`, …, in `deepFS [] 10` -/
+example : PlainDir (deepFS [] 10) ["w"] ∧
+    (List.replicate 9 deepLayer ++ [deepLayer]).length ≤ loadFuel ∧
+    (∀ y ∈ List.replicate 9 deepLayer ++ [deepLayer], PlainName y.name) ∧
+    ChainFilesOK (deepFS [] 10) ["w"] [] (List.replicate 9 deepLayer ++ [deepLayer]) := by
+  have hrep : List.replicate 9 deepLayer ++ [deepLayer] = List.replicate 10 deepLayer :=
+    (List.replicate_succ' (n := 9) (a := deepLayer)).symm
+  refine ⟨deepFS_plain _ _, by simp [loadFuel], ?_, ?_⟩
+  · intro y hy
+    rw [hrep] at hy
+    rw [(List.mem_replicate.1 hy).2]
+    exact deepLayer_plain
+  · rw [hrep]; exact deepFS_chainOK [] 10
+
+/-! ## a missing layer is an error -/
+
+/-- **Partial** (at most `loadFuel = 64` layers above the missing one; see
+    `C03_missing_layer_is_error_false`): in the chain `a₁, …, aₙ` let the middle layer
+    `a₁.….aₖ` (`pre`, `1 ≤ k`) be provided by no file (`findFile` finds none: no supported
+    extension exists — see the second example below for the `lstat` form), while the layers
+    `k+1 … n` (`P ++ [x]`, so `k < n`) are provided as in `C03_chain_order_n_partial`.  Nothing is
+    assumed about the layers below `k`.  Then loading the top file — and hence
+    `mergeFileLayers` from any state — fails with `missingFile`. -/
+theorem C03_missing_layer_is_error_partial (fs : FS) (d cwd : Comps) (pre : List String)
+    (P : List CLayer) (x : CLayer)
+    (hd : PlainDir fs d) (hn : (P ++ [x]).length ≤ loadFuel)
+    (hne : pre ≠ []) (hpre : ∀ n ∈ pre, PlainName n) (hpl : ∀ y ∈ P ++ [x], PlainName y.name)
+    (hok : ∀ P' y, P' ++ [y] <+: P ++ [x] →
+      LayerFile fs d (layerName (pre ++ (P' ++ [y]).map (·.name))) y.ext (.ok y.docs) ∧
+        ∀ v ∈ y.docs, parentDirective v = .ok .absent)
+    (hmiss : fs.findFile d (layerName pre) = none) :
+    loadFileAndParents fs ⟨[], cwd⟩ loadFuel (prefixPath d pre (P ++ [x])) none [] [] =
+      .error .missingFile ∧
+    ∀ st, mergeFileLayers fs ⟨[], cwd⟩ st (prefixPath d pre (P ++ [x])) = .error .missingFile := by
+  have h := load_chain_missing (cwd := cwd) hd P x hn hne hpre hpl hok hmiss
+  refine ⟨h, ?_⟩
+  intro st
+  rw [mergeFileLayers_eq, h]
+
+/-- For **every** `n` the load never succeeds: the result is `missingFile`, or — when more than
+    `loadFuel` layers lie above the missing one — the model's `circularRef`. -/
+theorem C03_missing_layer_never_ok (fs : FS) (d cwd : Comps) (pre : List String)
+    (P : List CLayer) (x : CLayer) (hd : PlainDir fs d)
+    (hne : pre ≠ []) (hpre : ∀ n ∈ pre, PlainName n) (hpl : ∀ y ∈ P ++ [x], PlainName y.name)
+    (hok : ∀ P' y, P' ++ [y] <+: P ++ [x] →
+      LayerFile fs d (layerName (pre ++ (P' ++ [y]).map (·.name))) y.ext (.ok y.docs) ∧
+        ∀ v ∈ y.docs, parentDirective v = .ok .absent)
+    (hmiss : fs.findFile d (layerName pre) = none) :
+    loadFileAndParents fs ⟨[], cwd⟩ loadFuel (prefixPath d pre (P ++ [x])) none [] [] =
+      .error (if (P ++ [x]).length ≤ loadFuel then .missingFile else .circularRef) ∧
+    (∀ st st', mergeFileLayers fs ⟨[], cwd⟩ st (prefixPath d pre (P ++ [x])) ≠ .ok st') := by
+  have key : loadFileAndParents fs ⟨[], cwd⟩ loadFuel (prefixPath d pre (P ++ [x])) none [] [] =
+      .error (if (P ++ [x]).length ≤ loadFuel then .missingFile else .circularRef) := by
+    by_cases hn : (P ++ [x]).length ≤ loadFuel
+    · rw [if_pos hn]
+      exact load_chain_missing hd P x hn hne hpre hpl hok hmiss
+    · rw [if_neg hn]
+      exact load_chain_nofuel hd P x (by omega) hpre hpl hok
+  refine ⟨key, ?_⟩
+  intro st st' h
+  rw [mergeFileLayers_eq, key] at h
+  cases h
+
+/-- "fails with `missingFile` for every `n`" is FALSE for the model: in `deepFS ["z"] 65`
+    (`/w/z.a.yaml`, `/w/z.a.a.yaml`, … 65 files; no `/w/z.*`) the layer `z` is missing under every
+    extension, 65 > `loadFuel` layers lie above it, and the error is `circularRef`. -/
+theorem C03_missing_layer_is_error_false :
+    ∃ (fs : FS) (d cwd : Comps) (pre : List String) (P : List CLayer) (x : CLayer),
+      PlainDir fs d ∧ pre ≠ [] ∧ (∀ n ∈ pre, PlainName n) ∧ (∀ y ∈ P ++ [x], PlainName y.name) ∧
+      ChainFilesOK fs d pre (P ++ [x]) ∧
+      (∀ e ∈ supportedExts, fs.lstat (d ++ [layerName pre ++ "." ++ e]) = none) ∧
+      fs.findFile d (layerName pre) = none ∧
+      loadFileAndParents fs ⟨[], cwd⟩ loadFuel (prefixPath d pre (P ++ [x])) none [] [] =
+        .error .circularRef := by
+  have hrep : List.replicate 64 deepLayer ++ [deepLayer] = List.replicate 65 deepLayer :=
+    (List.replicate_succ' (n := 64) (a := deepLayer)).symm
+  have hpl : ∀ y ∈ List.replicate 64 deepLayer ++ [deepLayer], PlainName y.name := by
+    intro y hy
+    rw [hrep] at hy
+    rw [(List.mem_replicate.1 hy).2]
+    exact deepLayer_plain
+  have hpre : ∀ n ∈ ["z"], PlainName n := by
+    intro n hn
+    have : n = "z" := List.mem_singleton.1 hn
+    subst this; exact ⟨by decide, by decide⟩
+  have hok : ChainFilesOK (deepFS ["z"] 65) ["w"] ["z"] (List.replicate 64 deepLayer ++ [deepLayer]) := by
+    rw [hrep]; exact deepFS_chainOK ["z"] 65
+  have hm := deepFS_missing ["z"] 65 (by simp) hpre
+  refine ⟨deepFS ["z"] 65, ["w"], [], ["z"], List.replicate 64 deepLayer, deepLayer,
+    deepFS_plain ["z"] 65, by simp, hpre, hpl, hok, hm, ?_, ?_⟩
+  · exact findFile_none_of_missing (deepFS_plain ["z"] 65) (by decide) hm
+  · exact load_chain_nofuel (deepFS_plain ["z"] 65) _ _ (by simp [loadFuel]) hpre hpl hok
+
+/-- non-vacuity of `C03_missing_layer_is_error_partial`: ten layers `z.a`, …, `z.a.….a` above the
+    missing layer `z` (and `findFile` is `none` because no `z.<ext>` exists) -/
+example : PlainDir (deepFS ["z"] 10) ["w"] ∧
+    (List.replicate 9 deepLayer ++ [deepLayer]).length ≤ loadFuel ∧
+    (∀ y ∈ List.replicate 9 deepLayer ++ [deepLayer], PlainName y.name) ∧
+    ChainFilesOK (deepFS ["z"] 10) ["w"] ["z"] (List.replicate 9 deepLayer ++ [deepLayer]) ∧
+    (deepFS ["z"] 10).findFile ["w"] (layerName ["z"]) = none := by
+  have hrep : List.replicate 9 deepLayer ++ [deepLayer] = List.replicate 10 deepLayer :=
+    (List.replicate_succ' (n := 9) (a := deepLayer)).symm
+  have hpre : ∀ n ∈ ["z"], PlainName n := by
+    intro n hn
+    have : n = "z" := List.mem_singleton.1 hn
+    subst this; exact ⟨by decide, by decide⟩
+  refine ⟨deepFS_plain _ _, by simp [loadFuel], ?_, ?_, ?_⟩
+  · intro y hy
+    rw [hrep] at hy
+    rw [(List.mem_replicate.1 hy).2]
+    exact deepLayer_plain
+  · rw [hrep]; exact deepFS_chainOK ["z"] 10
+  · exact findFile_none_of_missing (deepFS_plain ["z"] 10) (by decide)
+      (deepFS_missing ["z"] 10 (by simp) hpre)
+
+/-- the `lstat` form of "no file under any supported extension" implies the `findFile` form -/
+example (fs : FS) (d : Comps) (pre : List String) (hd : PlainDir fs d) (hne : pre ≠ [])
+    (hpre : ∀ n ∈ pre, PlainName n)
+    (h : ∀ e ∈ supportedExts, fs.lstat (d ++ [layerName pre ++ "." ++ e]) = none) :
+    fs.findFile d (layerName pre) = none :=
+  findFile_none_of_missing hd (layer_length_pos _ hne (fun n hn => (hpre n hn).1)) h
+
+/-- non-vacuity on the sample file system: `/w/orphan.x.yaml` exists, no `/w/orphan.*` does -/
+example : mergeFileLayers chainFS ⟨[], []⟩ PState.empty (prefixPath ["w"] ["orphan"] ([] ++ [⟨"x", "yaml", [.map []]⟩])) =
+    .error .missingFile := by
+  have hpre : ∀ n ∈ ["orphan"], PlainName n := by
+    intro n hn
+    have : n = "orphan" := List.mem_singleton.1 hn
+    subst this; exact ⟨by decide, by decide⟩
+  have hx : LayerFile chainFS ["w"] (layerName (["orphan"] ++ (([] : List CLayer) ++ [CLayer.mk "x" "yaml" [.map []]]).map CLayer.name))
+      "yaml" (.ok [.map []]) := by
+    rw [show layerName _ = "orphan.x" by decide]
+    exact layerFile_of_decide (by decide) (by decide) (fun _ => by decide) (fun _ => by decide)
+      (fun _ => by decide) (fun _ => by decide) (fun h => absurd rfl h) (fun _ => by decide)
+  have hok := chainFilesOK_snoc (x := ⟨"x", "yaml", [.map []]⟩) (chainFilesOK_nil chainFS ["w"] ["orphan"]) hx
+    (by intro v hv; have : v = _ := List.mem_singleton.1 hv
+        subst this; rfl)
+  have hm : chainFS.findFile ["w"] (layerName ["orphan"]) = none :=
+    findFile_none_of_missing chainFS_plain (by decide) (by
+      intro e he
+      simp only [supportedExts, List.mem_cons, List.not_mem_nil, or_false] at he
+      rcases he with rfl | rfl | rfl | rfl | rfl | rfl <;> decide)
+  exact (C03_missing_layer_is_error_partial chainFS ["w"] [] ["orphan"] [] ⟨"x", "yaml", [.map []]⟩
+    chainFS_plain (by simp [loadFuel]) (by simp) hpre
+    (by intro y hy
+        have : y = _ := List.mem_singleton.1 hy
+        subst this; exact ⟨by decide, by decide⟩) hok hm).2 _
+
+/-! ## a `$parent` list with an entry that names nothing -/
+
+/-- If any one of the names the `$parent` directives of a file contribute — at any position,
+    next to any number of other names, whether or not those exist — stands for no file
+    (`globName … = []`: it is not the name of an existing layer and not a wildcard matching
+    something, see `C03_parent_entry_names_nothing_iff`), then the file's parents are a
+    `missingFile` error, and so is loading the file (at any depth of a load) and layering it onto
+    any parser state.  The dangling name is never skipped. -/
+theorem C03_parent_missing_entry_is_error (fs : FS) (path : Comps) (docs : List Val)
+    (dirs : List ParentDir) (n : String)
+    (hd : docs.mapM parentDirective = .ok dirs) (hnp : hasNoParent dirs = false)
+    (hn : n ∈ parentNames dirs) (hg : globName fs path n = []) :
+    fileParents fs path docs = .error .missingFile ∧
+    (∀ cfg fuel c ids chain, chain.contains path = false →
+      loadFile fs cfg path (fileIdOf c path) = .ok docs →
+      loadFileAndParents fs cfg (fuel + 1) path c ids chain = .error .missingFile) ∧
+    (∀ cfg st, loadFile fs cfg path (pathStr path) = .ok docs →
+      mergeFileLayers fs cfg st path = .error .missingFile) := by
+  have hp := fileParents_missing_entry fs path docs dirs n hd hnp hn hg
+  refine ⟨hp, ?_, ?_⟩
+  · intro cfg fuel c ids chain hc hl
+    exact lfp_parents_error hc hl hp
+  · intro cfg st hl
+    rw [mergeFileLayers_eq, show loadFuel = 63 + 1 from rfl,
+      lfp_parents_error (c := []) (childId := none) (fuel := 63) (List.contains_nil) hl hp]
+
+/-- The list form: one document whose `$parent` is a list of strings with the dangling name `n`
+    anywhere in it. -/
+theorem C03_parent_list_missing_entry (fs : FS) (path : Comps) (kvs : Fields)
+    (before after : List String) (n : String)
+    (h : fget kvs "$parent" = some (.list ((before ++ n :: after).map Val.str)))
+    (hg : globName fs path n = []) :
+    fileParents fs path [.map kvs] = .error .missingFile ∧
+    (∀ cfg st, loadFile fs cfg path (pathStr path) = .ok [.map kvs] →
+      mergeFileLayers fs cfg st path = .error .missingFile) := by
+  have hd : [Val.map kvs].mapM parentDirective = .ok [.names (before ++ n :: after)] := by
+    rw [mapM_R_cons, mapM_R_nil, parentDirective_map, h]
+    simp only [toStringList_strs]
+  have := C03_parent_missing_entry_is_error fs path _ _ n hd rfl
+    (by simp [parentNames]) hg
+  exact ⟨this.1, this.2.2⟩
+
+/-- What "`n` names nothing" means: relative to the file's directory the pattern `n.*` selects
+    no entry — the directory does not resolve, or none of its entries matches `n.*` with the
+    same number of dots and a supported extension. -/
+theorem C03_parent_entry_names_nothing_iff (fs : FS) (path : Comps) (n : String) :
+    let target := cleanComps (dirOf path ++ splitPath n)
+    globName fs path n = [] ↔
+      fs.evalSymlinks (dirOf target) = none ∨
+      ∃ rdir, fs.evalSymlinks (dirOf target) = some rdir ∧
+        ∀ e ∈ fs.entries, e.1 ≠ [] → e.1.dropLast = rdir →
+          ¬ (globMatch (baseOf target ++ ".*").toList (baseOf e.1).toList
+                ((baseOf target ++ ".*").length + (baseOf e.1).length + 1) = true ∧
+              countDots (baseOf e.1) = countDots (baseOf target ++ ".*") ∧
+              supportedExts.contains (extOf (baseOf e.1)) = true) := by
+  intro target
+  unfold globName
+  rw [globFiles_eq_nil_iff]
+  constructor
+  · rintro (h | ⟨r, hr, h⟩)
+    · exact Or.inl h
+    · exact Or.inr ⟨r, hr, (globNames_eq_nil_iff fs r _).1 h⟩
+  · rintro (h | ⟨r, hr, h⟩)
+    · exact Or.inl h
+    · exact Or.inr ⟨r, hr, (globNames_eq_nil_iff fs r _).2 h⟩
+
+/-- non-vacuity: the other entries exist, the middle one does not, the load fails -/
+example :
+    fget [("$parent", Val.list [.str "a", .str "nope", .str "a"]), ("y", .int 2)] "$parent" =
+      some (.list ((["a"] ++ "nope" :: ["a"]).map Val.str)) ∧
+    globName danglingFS ["w", "top.yaml"] "a" = [["w", "a.yaml"]] ∧
+    globName danglingFS ["w", "top.yaml"] "nope" = [] ∧
+    loadFile danglingFS ⟨[], []⟩ ["w", "top.yaml"] (pathStr ["w", "top.yaml"]) =
+      .ok [.map [("$parent", .list [.str "a", .str "nope", .str "a"]), ("y", .int 2)]] ∧
+    mergeFileLayers danglingFS ⟨[], []⟩ PState.empty ["w", "top.yaml"] = .error .missingFile := by
+  have hl : loadFile danglingFS ⟨[], []⟩ ["w", "top.yaml"] (pathStr ["w", "top.yaml"]) =
+      .ok [.map [("$parent", .list [.str "a", .str "nope", .str "a"]), ("y", .int 2)]] := by
+    rw [loadFile_eq]
+    have h1 : supportedExts.contains (extOf (baseOf ["w", "top.yaml"])) = true := by
+      rw [extOf_eq]; decide
+    rw [h1, if_pos rfl, rootOpen_eq]
+    have h2 : danglingFS.rootWalk [] linkFuel [] (relTo [] ["w", "top.yaml"]) = .ok ["w", "top.yaml"] := by
+      decide
+    simp only [h2]
+    rfl
+  refine ⟨by decide, danglingFS_glob_a, danglingFS_glob_nope, hl, ?_⟩
+  exact (C03_parent_list_missing_entry danglingFS ["w", "top.yaml"] _ ["a"] ["a"] "nope"
+    (by decide) danglingFS_glob_nope).2 _ _ hl
+
+/-! ## filenames and `$parent` are interchangeable -/
+
+/-- Three layers.  The filename chain `d/a.e₁`, `d/a.b.e₂`, `d/a.b.c.e₃` and, anywhere else
+    (`d'`), three files `x.f₁`, `y.f₂`, `z.f₃` with unrelated names (`x` plain; `y`, `z`
+    arbitrary, even dotted) holding the same documents, where `y` says `$parent: n₁` and `z` says
+    `$parent: n₂` with `n₁` standing for exactly `x.f₁` and `n₂` for exactly `y.f₂`
+    (`globName … = […]`).  The filename files hold the documents as the loader sees them after
+    stripping `$parent`.  Then both loads succeed with three files holding the same document
+    contents in the same base-first order, so `mergeFileLayers` (from the empty state) gives the
+    same result up to an admissible renaming of document ids (`RenOK`, the id-independence of
+    `C03_rename_partial`): same success/error, same documents in the same order, and the same
+    `outputDocuments` for every environment. -/
+theorem C03_directive_equiv (fs : FS) (d d' cwd : Comps) (e₁ e₂ e₃ x y z f₁ f₂ f₃ n₁ n₂ : String)
+    (v₁ : Val) (k₂ k₃ : Fields)
+    (hd : PlainDir fs d) (hd' : PlainDir fs d')
+    (h₁ : LayerFile fs d "a" e₁ (.ok [v₁]))
+    (h₂ : LayerFile fs d "a.b" e₂ (.ok [stripParent (.map k₂)]))
+    (h₃ : LayerFile fs d "a.b.c" e₃ (.ok [stripParent (.map k₃)]))
+    (a₁ : parentDirective v₁ = .ok .absent)
+    (hx : 0 < x.length) (hxd : '.' ∉ x.toList) (hy : 0 < y.length) (hz : 0 < z.length)
+    (g₁ : LayerFile fs d' x f₁ (.ok [v₁])) (g₂ : LayerFile fs d' y f₂ (.ok [.map k₂]))
+    (g₃ : LayerFile fs d' z f₃ (.ok [.map k₃]))
+    (p₂ : fget k₂ "$parent" = some (.str n₁)) (p₃ : fget k₃ "$parent" = some (.str n₂))
+    (gl₂ : globName fs (d' ++ [y ++ "." ++ f₂]) n₁ = [d' ++ [x ++ "." ++ f₁]])
+    (gl₃ : globName fs (d' ++ [z ++ "." ++ f₃]) n₂ = [d' ++ [y ++ "." ++ f₂]]) :
+    let pA := d ++ ["a.b.c" ++ "." ++ e₃]
+    let pB := d' ++ [z ++ "." ++ f₃]
+    (∃ filesA idsA filesB idsB,
+      loadFileAndParents fs ⟨[], cwd⟩ loadFuel pA none [] [] = .ok (filesA, idsA) ∧
+      loadFileAndParents fs ⟨[], cwd⟩ loadFuel pB none [] [] = .ok (filesB, idsB) ∧
+      filesA.map (·.path) = [d ++ ["a" ++ "." ++ e₁], d ++ ["a.b" ++ "." ++ e₂], pA] ∧
+      filesB.map (·.path) = [d' ++ [x ++ "." ++ f₁], d' ++ [y ++ "." ++ f₂], pB] ∧
+      filesA.map (fun f => f.docs.map (·.data)) =
+        [[v₁], [stripParent (.map k₂)], [stripParent (.map k₃)]] ∧
+      filesB.map (fun f => f.docs.map (·.data)) = filesA.map (fun f => f.docs.map (·.data))) ∧
+    (∃ ρ S, RenOK ρ S ∧ mergeFileLayers fs ⟨[], cwd⟩ PState.empty pB =
+      rmap (renState ρ) (mergeFileLayers fs ⟨[], cwd⟩ PState.empty pA)) ∧
+    rmap (fun st => st.docs.map (·.2)) (mergeFileLayers fs ⟨[], cwd⟩ PState.empty pB) =
+      rmap (fun st => st.docs.map (·.2)) (mergeFileLayers fs ⟨[], cwd⟩ PState.empty pA) ∧
+    ∀ env, (mergeFileLayers fs ⟨[], cwd⟩ PState.empty pB >>= fun st =>
+        outputDocuments (st.docs.map (·.2)) env) =
+      (mergeFileLayers fs ⟨[], cwd⟩ PState.empty pA >>= fun st =>
+        outputDocuments (st.docs.map (·.2)) env) := by
+  intro pA pB
+  -- the filename chain
+  have hA : loadFileAndParents fs ⟨[], cwd⟩ loadFuel pA none [] [] =
+      .ok (chain3Files (d ++ ["a" ++ "." ++ e₁]) (d ++ ["a.b" ++ "." ++ e₂]) pA v₁
+        (stripParent (.map k₂)) (stripParent (.map k₃)), [pathStr pA ++ "|doc" ++ toString 0]) :=
+    chain3 hd h₁ h₂ h₃ a₁ (parentDirective_stripParent _) (parentDirective_stripParent _) 61 none
+      [] [] rfl rfl rfl
+  -- the `$parent` chain
+  have n12 : d' ++ [x ++ "." ++ f₁] ≠ d' ++ [y ++ "." ++ f₂] :=
+    layerFile_path_ne g₁ g₂ (absent_ne_str a₁ p₂)
+  have n13 : d' ++ [x ++ "." ++ f₁] ≠ d' ++ [z ++ "." ++ f₃] :=
+    layerFile_path_ne g₁ g₃ (absent_ne_str a₁ p₃)
+  have n23 : d' ++ [y ++ "." ++ f₂] ≠ d' ++ [z ++ "." ++ f₃] := by
+    intro e
+    have hk := g₂.file
+    rw [e, g₃.file] at hk
+    injection hk with hk
+    injection hk with hk
+    injection hk with hk
+    injection hk with hk _
+    injection hk with hk
+    subst hk
+    rw [p₂] at p₃
+    injection p₃ with p₃
+    injection p₃ with p₃
+    subst p₃
+    rw [← e, gl₂] at gl₃
+    injection gl₃ with gl₃
+    exact n12 gl₃
+  have hp₁ : fileParents fs (d' ++ [x ++ "." ++ f₁]) [v₁] = .ok [] := by
+    rw [fileParents_layer hd' hx g₁ (by simpa using a₁), splitOn_dot_plain x hxd]; rfl
+  have hB : loadFileAndParents fs ⟨[], cwd⟩ loadFuel pB none [] [] =
+      .ok (chain3Files (d' ++ [x ++ "." ++ f₁]) (d' ++ [y ++ "." ++ f₂]) pB v₁
+        (stripParent (.map k₂)) (stripParent (.map k₃)), [pathStr pB ++ "|doc" ++ toString 0]) := by
+    have := lfp_gen3 (cfg := ⟨[], cwd⟩) (fun fid => loadFile_layerFile hd' hx g₁ cwd fid)
+      (fun fid => loadFile_layerFile hd' hy g₂ cwd fid)
+      (fun fid => loadFile_layerFile hd' hz g₃ cwd fid) hp₁
+      (fileParents_str_single fs _ _ k₂ n₁ p₂ gl₂) (fileParents_str_single fs _ _ k₃ n₂ p₃ gl₃)
+      n12 n13 n23 61 none [] [] rfl rfl rfl
+    rw [stripParent_of_absent v₁ a₁] at this
+    exact this
+  refine ⟨⟨_, _, _, _, hA, hB, rfl, rfl, rfl, rfl⟩, ?_⟩
+  exact layers_equiv_of_files hA hB (chain3_merge_equiv _ _ _ _ _ _ _ _ _)
+
+/-- Two layers: `d/a.e₁`, `d/a.b.e₂` against `d'/x.f₁`, `d'/y.f₂` with `$parent: n₁` in `y`. -/
+theorem C03_directive_equiv_2 (fs : FS) (d d' cwd : Comps) (e₁ e₂ x y f₁ f₂ n₁ : String)
+    (v₁ : Val) (k₂ : Fields)
+    (hd : PlainDir fs d) (hd' : PlainDir fs d')
+    (h₁ : LayerFile fs d "a" e₁ (.ok [v₁]))
+    (h₂ : LayerFile fs d "a.b" e₂ (.ok [stripParent (.map k₂)]))
+    (a₁ : parentDirective v₁ = .ok .absent)
+    (hx : 0 < x.length) (hxd : '.' ∉ x.toList) (hy : 0 < y.length)
+    (g₁ : LayerFile fs d' x f₁ (.ok [v₁])) (g₂ : LayerFile fs d' y f₂ (.ok [.map k₂]))
+    (p₂ : fget k₂ "$parent" = some (.str n₁))
+    (gl₂ : globName fs (d' ++ [y ++ "." ++ f₂]) n₁ = [d' ++ [x ++ "." ++ f₁]]) :
+    let pA := d ++ ["a.b" ++ "." ++ e₂]
+    let pB := d' ++ [y ++ "." ++ f₂]
+    (∃ filesA idsA filesB idsB,
+      loadFileAndParents fs ⟨[], cwd⟩ loadFuel pA none [] [] = .ok (filesA, idsA) ∧
+      loadFileAndParents fs ⟨[], cwd⟩ loadFuel pB none [] [] = .ok (filesB, idsB) ∧
+      filesA.map (·.path) = [d ++ ["a" ++ "." ++ e₁], pA] ∧
+      filesB.map (·.path) = [d' ++ [x ++ "." ++ f₁], pB] ∧
+      filesA.map (fun f => f.docs.map (·.data)) = [[v₁], [stripParent (.map k₂)]] ∧
+      filesB.map (fun f => f.docs.map (·.data)) = filesA.map (fun f => f.docs.map (·.data))) ∧
+    (∃ ρ S, RenOK ρ S ∧ mergeFileLayers fs ⟨[], cwd⟩ PState.empty pB =
+      rmap (renState ρ) (mergeFileLayers fs ⟨[], cwd⟩ PState.empty pA)) ∧
+    rmap (fun st => st.docs.map (·.2)) (mergeFileLayers fs ⟨[], cwd⟩ PState.empty pB) =
+      rmap (fun st => st.docs.map (·.2)) (mergeFileLayers fs ⟨[], cwd⟩ PState.empty pA) ∧
+    ∀ env, (mergeFileLayers fs ⟨[], cwd⟩ PState.empty pB >>= fun st =>
+        outputDocuments (st.docs.map (·.2)) env) =
+      (mergeFileLayers fs ⟨[], cwd⟩ PState.empty pA >>= fun st =>
+        outputDocuments (st.docs.map (·.2)) env) := by
+  intro pA pB
+  have hA : loadFileAndParents fs ⟨[], cwd⟩ loadFuel pA none [] [] =
+      .ok (chain2Files (d ++ ["a" ++ "." ++ e₁]) pA v₁ (stripParent (.map k₂)),
+        [pathStr pA ++ "|doc" ++ toString 0]) :=
+    chain2 hd h₁ h₂ a₁ (parentDirective_stripParent _) 62 none [] [] rfl rfl
+  have n12 : d' ++ [x ++ "." ++ f₁] ≠ d' ++ [y ++ "." ++ f₂] :=
+    layerFile_path_ne g₁ g₂ (absent_ne_str a₁ p₂)
+  have hp₁ : fileParents fs (d' ++ [x ++ "." ++ f₁]) [v₁] = .ok [] := by
+    rw [fileParents_layer hd' hx g₁ (by simpa using a₁), splitOn_dot_plain x hxd]; rfl
+  have hB : loadFileAndParents fs ⟨[], cwd⟩ loadFuel pB none [] [] =
+      .ok (chain2Files (d' ++ [x ++ "." ++ f₁]) pB v₁ (stripParent (.map k₂)),
+        [pathStr pB ++ "|doc" ++ toString 0]) := by
+    have := lfp_gen2 (cfg := ⟨[], cwd⟩) (fun fid => loadFile_layerFile hd' hx g₁ cwd fid)
+      (fun fid => loadFile_layerFile hd' hy g₂ cwd fid) hp₁
+      (fileParents_str_single fs _ _ k₂ n₁ p₂ gl₂) n12 62 none [] [] rfl rfl
+    rw [stripParent_of_absent v₁ a₁] at this
+    exact this
+  refine ⟨⟨_, _, _, _, hA, hB, rfl, rfl, rfl, rfl⟩, ?_⟩
+  exact layers_equiv_of_files hA hB (chain2_merge_equiv _ _ _ _ _ _)
+
+/-- non-vacuity of `C03_directive_equiv` (and, dropping the third layer, of
+    `C03_directive_equiv_2`) -/
+example : PlainDir dirFS ["w"] ∧ PlainDir dirFS ["v"] ∧
+    LayerFile dirFS ["w"] "a" "yaml" (.ok [.map [("x", .int 1)]]) ∧
+    LayerFile dirFS ["w"] "a.b" "json" (.ok [stripParent (.map [("$parent", .str "base"), ("y", .int 2)])]) ∧
+    LayerFile dirFS ["w"] "a.b.c" "toml" (.ok [stripParent (.map [("$parent", .str "mid"), ("z", .int 3)])]) ∧
+    parentDirective (.map [("x", .int 1)]) = .ok .absent ∧
+    0 < "base".length ∧ '.' ∉ "base".toList ∧ 0 < "mid".length ∧ 0 < "top".length ∧
+    LayerFile dirFS ["v"] "base" "yaml" (.ok [.map [("x", .int 1)]]) ∧
+    LayerFile dirFS ["v"] "mid" "yaml" (.ok [.map [("$parent", .str "base"), ("y", .int 2)]]) ∧
+    LayerFile dirFS ["v"] "top" "json" (.ok [.map [("$parent", .str "mid"), ("z", .int 3)]]) ∧
+    fget [("$parent", Val.str "base"), ("y", .int 2)] "$parent" = some (.str "base") ∧
+    fget [("$parent", Val.str "mid"), ("z", .int 3)] "$parent" = some (.str "mid") ∧
+    globName dirFS (["v"] ++ ["mid" ++ "." ++ "yaml"]) "base" = [["v"] ++ ["base" ++ "." ++ "yaml"]] ∧
+    globName dirFS (["v"] ++ ["top" ++ "." ++ "json"]) "mid" = [["v"] ++ ["mid" ++ "." ++ "yaml"]] :=
+  ⟨dirFS_w, dirFS_v, dirFS_a, dirFS_ab, dirFS_abc, rfl, by decide, by decide, by decide, by decide,
+    dirFS_base, dirFS_mid, dirFS_top, by decide, by decide, dirFS_glob_base, dirFS_glob_mid⟩
+
+/-- The same stated on files only: in a file system that lists no path twice, with `x`, `y`
+    plain names (non-empty, no dots, wildcards or slashes), `y.f₂` saying `$parent: x` and `z.f₃`
+    saying `$parent: y`, the `$parent`-linked files evaluate exactly like the filename chain
+    `a`, `a.b`, `a.b.c` holding the same (stripped) documents. -/
+theorem C03_directive_equiv_files (fs : FS) (d d' cwd : Comps) (e₁ e₂ e₃ x y z f₁ f₂ f₃ : String)
+    (v₁ : Val) (k₂ k₃ : Fields)
+    (hnd : (fs.entries.map (·.1)).Nodup)
+    (hd : PlainDir fs d) (hd' : PlainDir fs d')
+    (h₁ : LayerFile fs d "a" e₁ (.ok [v₁]))
+    (h₂ : LayerFile fs d "a.b" e₂ (.ok [stripParent (.map k₂)]))
+    (h₃ : LayerFile fs d "a.b.c" e₃ (.ok [stripParent (.map k₃)]))
+    (a₁ : parentDirective v₁ = .ok .absent)
+    (px : PlainName x) (wx : ∀ ch ∈ x.toList, ch ≠ '*' ∧ ch ≠ '?' ∧ ch ≠ '/')
+    (py : PlainName y) (wy : ∀ ch ∈ y.toList, ch ≠ '*' ∧ ch ≠ '?' ∧ ch ≠ '/')
+    (hz : 0 < z.length)
+    (g₁ : LayerFile fs d' x f₁ (.ok [v₁])) (g₂ : LayerFile fs d' y f₂ (.ok [.map k₂]))
+    (g₃ : LayerFile fs d' z f₃ (.ok [.map k₃]))
+    (p₂ : fget k₂ "$parent" = some (.str x)) (p₃ : fget k₃ "$parent" = some (.str y)) :
+    let pA := d ++ ["a.b.c" ++ "." ++ e₃]
+    let pB := d' ++ [z ++ "." ++ f₃]
+    (∃ filesA idsA filesB idsB,
+      loadFileAndParents fs ⟨[], cwd⟩ loadFuel pA none [] [] = .ok (filesA, idsA) ∧
+      loadFileAndParents fs ⟨[], cwd⟩ loadFuel pB none [] [] = .ok (filesB, idsB) ∧
+      filesA.map (·.path) = [d ++ ["a" ++ "." ++ e₁], d ++ ["a.b" ++ "." ++ e₂], pA] ∧
+      filesB.map (·.path) = [d' ++ [x ++ "." ++ f₁], d' ++ [y ++ "." ++ f₂], pB] ∧
+      filesA.map (fun f => f.docs.map (·.data)) =
+        [[v₁], [stripParent (.map k₂)], [stripParent (.map k₃)]] ∧
+      filesB.map (fun f => f.docs.map (·.data)) = filesA.map (fun f => f.docs.map (·.data))) ∧
+    (∃ ρ S, RenOK ρ S ∧ mergeFileLayers fs ⟨[], cwd⟩ PState.empty pB =
+      rmap (renState ρ) (mergeFileLayers fs ⟨[], cwd⟩ PState.empty pA)) ∧
+    rmap (fun st => st.docs.map (·.2)) (mergeFileLayers fs ⟨[], cwd⟩ PState.empty pB) =
+      rmap (fun st => st.docs.map (·.2)) (mergeFileLayers fs ⟨[], cwd⟩ PState.empty pA) ∧
+    ∀ env, (mergeFileLayers fs ⟨[], cwd⟩ PState.empty pB >>= fun st =>
+        outputDocuments (st.docs.map (·.2)) env) =
+      (mergeFileLayers fs ⟨[], cwd⟩ PState.empty pA >>= fun st =>
+        outputDocuments (st.docs.map (·.2)) env) :=
+  have lenpos : ∀ {s : String}, PlainName s → 0 < s.length := fun h =>
+    Nat.pos_of_ne_zero (fun h0 => h.1 (String.length_eq_zero_iff.1 h0))
+  C03_directive_equiv fs d d' cwd e₁ e₂ e₃ x y z f₁ f₂ f₃ x y v₁ k₂ k₃ hd hd' h₁ h₂ h₃ a₁
+    (lenpos px) px.2 (lenpos py) hz g₁ g₂ g₃ p₂ p₃
+    (globName_plain hd' px wx g₁ hnd) (globName_plain hd' py wy g₂ hnd)
+
+/-- non-vacuity: `dirFS` lists no path twice; `base`, `mid` are plain names -/
+example : (dirFS.entries.map (·.1)).Nodup ∧ PlainName "base" ∧ PlainName "mid" ∧
+    (∀ ch ∈ "base".toList, ch ≠ '*' ∧ ch ≠ '?' ∧ ch ≠ '/') ∧
+    (∀ ch ∈ "mid".toList, ch ≠ '*' ∧ ch ≠ '?' ∧ ch ≠ '/') :=
+  ⟨by decide, ⟨by decide, by decide⟩, ⟨by decide, by decide⟩, by decide, by decide⟩
+
+/-- Two layers, stated on files only. -/
+theorem C03_directive_equiv_2_files (fs : FS) (d d' cwd : Comps) (e₁ e₂ x y f₁ f₂ : String)
+    (v₁ : Val) (k₂ : Fields)
+    (hnd : (fs.entries.map (·.1)).Nodup)
+    (hd : PlainDir fs d) (hd' : PlainDir fs d')
+    (h₁ : LayerFile fs d "a" e₁ (.ok [v₁]))
+    (h₂ : LayerFile fs d "a.b" e₂ (.ok [stripParent (.map k₂)]))
+    (a₁ : parentDirective v₁ = .ok .absent)
+    (px : PlainName x) (wx : ∀ ch ∈ x.toList, ch ≠ '*' ∧ ch ≠ '?' ∧ ch ≠ '/')
+    (hy : 0 < y.length)
+    (g₁ : LayerFile fs d' x f₁ (.ok [v₁])) (g₂ : LayerFile fs d' y f₂ (.ok [.map k₂]))
+    (p₂ : fget k₂ "$parent" = some (.str x)) :
+    let pA := d ++ ["a.b" ++ "." ++ e₂]
+    let pB := d' ++ [y ++ "." ++ f₂]
+    (∃ filesA idsA filesB idsB,
+      loadFileAndParents fs ⟨[], cwd⟩ loadFuel pA none [] [] = .ok (filesA, idsA) ∧
+      loadFileAndParents fs ⟨[], cwd⟩ loadFuel pB none [] [] = .ok (filesB, idsB) ∧
+      filesA.map (·.path) = [d ++ ["a" ++ "." ++ e₁], pA] ∧
+      filesB.map (·.path) = [d' ++ [x ++ "." ++ f₁], pB] ∧
+      filesA.map (fun f => f.docs.map (·.data)) = [[v₁], [stripParent (.map k₂)]] ∧
+      filesB.map (fun f => f.docs.map (·.data)) = filesA.map (fun f => f.docs.map (·.data))) ∧
+    (∃ ρ S, RenOK ρ S ∧ mergeFileLayers fs ⟨[], cwd⟩ PState.empty pB =
+      rmap (renState ρ) (mergeFileLayers fs ⟨[], cwd⟩ PState.empty pA)) ∧
+    rmap (fun st => st.docs.map (·.2)) (mergeFileLayers fs ⟨[], cwd⟩ PState.empty pB) =
+      rmap (fun st => st.docs.map (·.2)) (mergeFileLayers fs ⟨[], cwd⟩ PState.empty pA) ∧
+    ∀ env, (mergeFileLayers fs ⟨[], cwd⟩ PState.empty pB >>= fun st =>
+        outputDocuments (st.docs.map (·.2)) env) =
+      (mergeFileLayers fs ⟨[], cwd⟩ PState.empty pA >>= fun st =>
+        outputDocuments (st.docs.map (·.2)) env) :=
+  C03_directive_equiv_2 fs d d' cwd e₁ e₂ x y f₁ f₂ x v₁ k₂ hd hd' h₁ h₂ a₁
+    (Nat.pos_of_ne_zero (fun h0 => px.1 (String.length_eq_zero_iff.1 h0))) px.2 hy g₁ g₂ p₂
+    (globName_plain hd' px wx g₁ hnd)
+
+/-! ## symlinks inherit from the target's name -/
+
+/-- A symlink `d/c -> t` (relative, one component `l.e` in the same link-free directory, `e`
+    supported, the target exists and is not itself a link), whose documents carry no `$parent`:
+    its parents are decided by the **target's** name `l.e`; the link's own name `c` — any plain
+    component, dotted or not — is not consulted.
+    * target a base layer (`l` without dots): no parents, and (with a supported extension on the
+      link so that it can be decoded) loading the link returns the single file `d/c` holding the
+      target's documents;
+    * target name dotted, `l = l₀.b`: the parent is the file found for `l₀` (an error if there
+      is none), and loading the link puts that parent's files first. -/
+theorem C03_symlink_uses_target_name (fs : FS) (d cwd : Comps) (c t l e : String)
+    (raw : List Val) (hd : PlainDir fs d) (hlen : d.length + 3 ≤ linkFuel)
+    (hc : plainComp c = true)
+    (hl : fs.lstat (d ++ [c]) = some (.link t)) (ha : isAbsPath t = false)
+    (hs : splitPath t = [l ++ "." ++ e]) (hll : 0 < l.length) (he : e ∈ supportedExts)
+    (hl' : fs.lstat (d ++ [l ++ "." ++ e]) = some (.file (.ok raw)))
+    (hraw : ∀ v ∈ raw, parentDirective v = .ok .absent) :
+    fs.evalSymlinks (d ++ [c]) = some (d ++ [l ++ "." ++ e]) ∧
+    fileParents fs (d ++ [c]) raw = fromName fs (d ++ [l ++ "." ++ e]) ∧
+    ('.' ∉ l.toList →
+      fileParents fs (d ++ [c]) raw = .ok [] ∧
+      (supportedExts.contains (extOf c) = true → ∀ fuel,
+        loadFileAndParents fs ⟨[], cwd⟩ (fuel + 1) (d ++ [c]) none [] [] =
+          .ok ([{ id := pathStr (d ++ [c]), path := d ++ [c],
+                  docs := plainDocs (pathStr (d ++ [c])) [] raw }],
+            docIdsOf (pathStr (d ++ [c])) raw.length))) ∧
+    (∀ l₀ b, l = l₀ ++ "." ++ b → '.' ∉ b.toList →
+      fileParents fs (d ++ [c]) raw =
+        (match fs.findFile d l₀ with
+          | some f => .ok [f]
+          | none => .error .missingFile) ∧
+      (supportedExts.contains (extOf c) = true → ∀ fuel f sub ids,
+        fs.findFile d l₀ = some f →
+        loadFileAndParents fs ⟨[], cwd⟩ fuel f (some (pathStr (d ++ [c])))
+          (docIdsOf (pathStr (d ++ [c])) raw.length) [d ++ [c]] = .ok (sub, ids) →
+        loadFileAndParents fs ⟨[], cwd⟩ (fuel + 1) (d ++ [c]) none [] [] =
+          .ok (sub ++ [{ id := pathStr (d ++ [c]), path := d ++ [c],
+                         docs := plainDocs (pathStr (d ++ [c]))
+                           ((sub.filter (fun g => g.id == pathStr (d ++ [c]) ++ "|" ++ pathStr f)).flatMap
+                             (fun g => g.docs.map (·.id))) raw }],
+            docIdsOf (pathStr (d ++ [c])) raw.length))) := by
+  have hpl := plainComp_layer l e hll (supportedExt_length_pos e he)
+  have hev := evalSymlinks_link hd hlen hc hl ha hs hpl hl' rfl
+  have hfp := fileParents_link (docs := raw) hd hlen hc hl ha hs hll he hl' rfl hraw
+  have hload : supportedExts.contains (extOf c) = true → ∀ fid,
+      loadFile fs ⟨[], cwd⟩ (d ++ [c]) fid = .ok raw :=
+    fun hce fid => loadFile_link hd hlen hc hce hl ha hs hll he hl' fid
+  refine ⟨hev, ?_, ?_, ?_⟩
+  · rw [fileParents_no_directive fs _ raw hraw, hev]
+  · intro hdot
+    have hp : fileParents fs (d ++ [c]) raw = .ok [] := by
+      rw [hfp, splitOn_dot_plain l hdot]; rfl
+    refine ⟨hp, ?_⟩
+    intro hce fuel
+    rw [lfp_leaf (List.contains_nil) (hload hce _) hp, mineOf_plain _ _ _ _ _ hraw]
+    rfl
+  · intro l₀ b hlb hb
+    have hp : fileParents fs (d ++ [c]) raw =
+        (match fs.findFile d l₀ with
+          | some f => .ok [f]
+          | none => .error .missingFile) := by
+      rw [hfp, hlb, if_neg (parent_layer_snoc l₀ b hb).1, (parent_layer_snoc l₀ b hb).2]
+      rfl
+    refine ⟨hp, ?_⟩
+    intro hce fuel f sub ids hf hq
+    rw [hf] at hp
+    rw [lfp_single (List.contains_nil) (hload hce _) hp hq, mineOf_plain _ _ _ _ _ hraw]
+    simp only [fileIdOf, List.any_cons, List.any_nil, Bool.or_false]
+
+/-- non-vacuity (base target): `/w/p.q.yaml -> a.yaml`.  By its own name the link would need the
+    missing layer `p`; by its target's name it has no parents and loads alone. -/
+example :
+    PlainDir symFS ["w"] ∧ plainComp "p.q.yaml" = true ∧
+    symFS.lstat (["w"] ++ ["p.q.yaml"]) = some (.link "a.yaml") ∧ isAbsPath "a.yaml" = false ∧
+    splitPath "a.yaml" = ["a" ++ "." ++ "yaml"] ∧
+    symFS.lstat (["w"] ++ ["a" ++ "." ++ "yaml"]) = some (.file (.ok [.map [("x", .int 1)]])) ∧
+    '.' ∉ "a".toList ∧ supportedExts.contains (extOf "p.q.yaml") = true ∧
+    fromName symFS (["w"] ++ ["p.q.yaml"]) = .error .missingFile ∧
+    loadFileAndParents symFS ⟨[], []⟩ loadFuel (["w"] ++ ["p.q.yaml"]) none [] [] =
+      .ok ([{ id := "/w/p.q.yaml", path := ["w", "p.q.yaml"],
+              docs := [{ id := "/w/p.q.yaml|doc0", parents := [], data := .map [("x", .int 1)] }] }],
+        ["/w/p.q.yaml|doc0"]) := by
+  have hsp : splitPath "a.yaml" = ["a" ++ "." ++ "yaml"] := splitPath_lit _ _ (by decide)
+  have hext : supportedExts.contains (extOf "p.q.yaml") = true := by rw [extOf_eq]; decide
+  have hown : fromName symFS (["w"] ++ ["p.q.yaml"]) = .error .missingFile := by
+    have e : (["w"] ++ ["p.q.yaml"] : Comps) = ["w"] ++ ["p.q" ++ "." ++ "yaml"] := by decide
+    rw [e, fromName_snoc symFS ["w"] "p.q" "yaml" (by decide)]
+    have h1 : "p.q".splitOn "." = ["p", "q"] := by rw [splitOn_dot]; decide
+    rw [h1, if_neg (by decide)]
+    have h2 : ".".intercalate (["p", "q"] : List String).dropLast = "p" := by decide
+    rw [h2, findFile_none_of_missing symFS_plain (by decide) (by
+      intro e he
+      simp only [supportedExts, List.mem_cons, List.not_mem_nil, or_false] at he
+      rcases he with rfl | rfl | rfl | rfl | rfl | rfl <;> decide)]
+  refine ⟨symFS_plain, by decide, by decide, by simp [isAbsPath], hsp, by decide, by decide, hext,
+    hown, ?_⟩
+  have h := (C03_symlink_uses_target_name symFS ["w"] [] "p.q.yaml" "a.yaml" "a" "yaml"
+    [.map [("x", .int 1)]] symFS_plain (by simp [linkFuel]) (by decide) (by decide)
+    (by simp [isAbsPath]) hsp (by decide) (by decide) (by decide)
+    (by intro v hv; have : v = _ := List.mem_singleton.1 hv
+        subst this; rfl)).2.2.1 (by decide)
+  rw [show loadFuel = 63 + 1 from rfl, h.2 hext 63]
+  rfl
+
+/-- non-vacuity (dotted target): `/w/x.y.z.yaml -> a.b.json` inherits the parent `a` of its
+    target's name `a.b`; its own name (`x.y`) is not consulted. -/
+example :
+    symFS.lstat (["w"] ++ ["x.y.z.yaml"]) = some (.link "a.b.json") ∧
+    splitPath "a.b.json" = ["a.b" ++ "." ++ "json"] ∧ "a.b" = "a" ++ "." ++ "b" ∧
+    symFS.findFile ["w"] "a" = some (["w"] ++ ["a" ++ "." ++ "yaml"]) ∧
+    fileParents symFS (["w"] ++ ["x.y.z.yaml"]) [.map [("y", .int 2)]] = .ok [["w", "a.yaml"]] ∧
+    loadFileAndParents symFS ⟨[], []⟩ loadFuel (["w"] ++ ["x.y.z.yaml"]) none [] [] =
+      .ok ([{ id := "/w/x.y.z.yaml|/w/a.yaml", path := ["w", "a.yaml"],
+              docs := [{ id := "/w/x.y.z.yaml|/w/a.yaml|doc0", parents := [],
+                         data := .map [("x", .int 1)] }] },
+            { id := "/w/x.y.z.yaml", path := ["w", "x.y.z.yaml"],
+              docs := [{ id := "/w/x.y.z.yaml|doc0", parents := ["/w/x.y.z.yaml|/w/a.yaml|doc0"],
+                         data := .map [("y", .int 2)] }] }],
+        ["/w/x.y.z.yaml|doc0"]) := by
+  have hsp : splitPath "a.b.json" = ["a.b" ++ "." ++ "json"] := splitPath_lit _ _ (by decide)
+  have hext : supportedExts.contains (extOf "x.y.z.yaml") = true := by rw [extOf_eq]; decide
+  have hfind : symFS.findFile ["w"] "a" = some (["w"] ++ ["a" ++ "." ++ "yaml"]) :=
+    findFile_layerFile symFS_plain (by decide) symFS_a
+  have h := (C03_symlink_uses_target_name symFS ["w"] [] "x.y.z.yaml" "a.b.json" "a.b" "json"
+    [.map [("y", .int 2)]] symFS_plain (by simp [linkFuel]) (by decide) (by decide)
+    (by simp [isAbsPath]) hsp (by decide) (by decide) (by decide)
+    (by intro v hv; have : v = _ := List.mem_singleton.1 hv
+        subst this; rfl)).2.2.2 "a" "b" (by decide) (by decide)
+  refine ⟨by decide, hsp, by decide, hfind, ?_, ?_⟩
+  · rw [h.1, hfind]; rfl
+  · have hq := chain1 (cwd := []) symFS_plain symFS_a rfl 62
+      (some (pathStr (["w"] ++ ["x.y.z.yaml"])))
+      (docIdsOf (pathStr (["w"] ++ ["x.y.z.yaml"])) [Val.map [("y", .int 2)]].length)
+      [["w"] ++ ["x.y.z.yaml"]] (by decide)
+    rw [show loadFuel = 63 + 1 from rfl, h.2 hext 63 _ _ _ hfind hq]
+    rfl
 
 end Bkl
